@@ -9,7 +9,8 @@ LEVEL = "model_checking"
 RULE = ("Construct records: every spelling of (periodic, boundary, fill_value) for a 2-axis grid (bool / every list / "
         "total mapping; none / scalar / every partial or total mapping in both key orders); Pad records: random "
         "constructor x call spellings x asymmetric widths 0..n x shapes and dim orders on 1-3 axis grids; "
-        "non-trivial = distinct (event, spelling kinds, rule in force per axis) classes")
+        "non-trivial = distinct (event, spelling kinds, rule in force per axis) classes"
+        ' Also: NaN among the original values, arrays shorter / longer than the dataset along a padded dimension, numpy-scalar fill values, earlier padding calls with other per-call choices on the same Grid.')
 
 FILLS = [0, 5]
 
